@@ -14,7 +14,7 @@ import json
 from .. import evalenv, extract, parsing as P, trees as T
 from ..common import Ctx, VERIF
 
-MODULES = ["Ahbicht.Properties.Grammar", "Ahbicht.Properties.C02", "Ahbicht.Properties.C02Lex"]
+MODULES = ["Ahbicht.Properties.Grammar", "Ahbicht.Properties.C02", "Ahbicht.Properties.C02Lex", "Ahbicht.Properties.C02Ahb"]
 CORPUS = VERIF / "corpus" / "C02.jsonl"
 ALPHABET = ["[", "]", "(", ")", "U", "O", "X", "∧", "1", "P", ".", "B", "M", "s", " "]
 UNICODE = [" ", "\x0b", " ", "٣", "１", "K", "ſ", "\ud800", "İ", " ", "²", "\x1c", "\x85", "µ", "ı", "İ"]
